@@ -160,6 +160,10 @@ fn main() {
             if a.get("framing-extremes").is_some() {
                 d_lzma2::framing_extremes(&prop, &mut rep);
             }
+            let fw = a.num("fault-walks", 0) as usize;
+            if fw > 0 {
+                d_lzma2::fault_walks(&prop, seed, fw, &mut rep);
+            }
             let w = a.num("walks", 0) as usize;
             if w > 0 {
                 d_lzma2::walks(&prop, seed, w, &mut rep);
